@@ -34,7 +34,7 @@ WriteThrough(m, slots, k) ==
 AWriteThrough(E, pvs, k) ==
     {IF \E j \in 1..Len(pvs) : pvs[j].p.n = e.n /\ (k = 0 \/ k = j) THEN [e EXCEPT !.v = Flip(@)] ELSE e : e \in E}
 Observers == {"Get", "GetKV", "Contains", "Lpm", "Spm", "Cover", "Children", "Iter", "Len",
-              "ViewDesc", "Find", "Alias", "CloneCheck", "Collect", "Serde"}
+              "ViewDesc", "Find", "Alias", "CloneCheck", "Collect", "Serde", "SplitOp"}
 
 \* C14: the slots to which mutable references are handed out simultaneously
 \*   "iter"        view.iter_mut()
@@ -56,6 +56,18 @@ AliasSlots(m, loc, how) ==
                                   ELSE (IF s[1].l # 0 THEN <<s[1].l>> ELSE <<>>) \o
                                        (IF s[1].r # 0 THEN <<s[1].r>> ELSE <<>>) \o Flat(Tail(s))
                    IN Flat(u)
+
+\* the operation `op` between the left and the right side of the view at p (<<>> if a side is missing)
+SplitOpRun(m, p, op) ==
+    LET at == Find(m, RootLoc, p) IN
+    IF at = <<>> THEN <<>>
+    ELSE LET l == Left(m, at[1])
+             r == Right(m, at[1])
+         IN IF l = <<>> \/ r = <<>> THEN <<>>
+            ELSE <<CASE op = "Union"   -> UnionRun(m, m, l[1], r[1])
+                     [] op = "Inter"   -> InterRun(m, m, l[1], r[1])
+                     [] op = "Diff"    -> DiffRun(m, m, l[1], r[1])
+                     [] op = "CovDiff" -> CovDiffRun(m, m, l[1], r[1])>>
 
 \* FromIterator: a new map with the entries inserted in iteration order
 RECURSIVE InsertAll(_, _)
@@ -103,6 +115,9 @@ Apply(m, e) ==
       [] e.a = "CloneCheck"     -> Res(m, <<1, 1, 1>>)
       [] e.a = "Collect"        -> Res(m, <<B2S(EqAlg1(m, CollectOf(m)))[1], B2S(Tree(CollectOf(m)) = Tree(CollectOf(CollectOf(m))))[1]>>)
       [] e.a = "Serde"          -> Res(m, <<1>>)
+      \* set operations between the two sides of one view (two disjoint views of the same map):
+      \* view_at(p).left() / .right() for the read-only operations, view_mut_at(p).split() for the _mut twins
+      [] e.a = "SplitOp"        -> Res(m, SplitOpRun(m, e.p, e.op))
       [] e.a = "Alias"          ->                  \* C14: all mutable references obtainable at once below view_mut_at(p)
             LET at == ViewAt(m, e.p) IN
             IF at = <<>> THEN Res(m, <<>>)
@@ -160,7 +175,7 @@ AbsApply(E, e, r) ==
       [] e.a = "ChildrenMut"    -> ARes(AWriteThrough(E, AChildren(E, e.p), e.k), AChildren(E, e.p))
       \* views: the abstract map cannot know shapes or the prefixes of value-less nodes; the
       \* machine's answer is judged by the predicates in RetAgrees instead of by equality
-      [] e.a \in {"ViewDesc", "Find", "Alias"} -> ARes(E, r.ret)
+      [] e.a \in {"ViewDesc", "Find", "Alias", "SplitOp"} -> ARes(E, r.ret)
       [] e.a = "CloneCheck"     -> ARes(E, <<1, 1, 1>>)
       [] e.a = "Collect"        -> ARes(E, <<1, 1>>)
       [] e.a = "Serde"          -> ARes(E, <<1>>)
@@ -206,6 +221,15 @@ RetAgrees(e, r, ar, E, canon, drift) ==
                       [] e.kind = "find_lpm"   -> FindLpmOK(EV, e.q, res)
                  \* on failure the original view is handed back
                  /\ r.ret[1].ok = 0 => r.ret[1].d.it = SortedPV(EV)
+    ELSE IF e.a = "SplitOp" THEN
+         /\ ~r.pan
+         /\ r.ret # <<>> =>
+              LET EA == AUnder(E, Pfx(Append(e.p.n, 0), ZeroHost))
+                  EB == AUnder(E, Pfx(Append(e.p.n, 1), ZeroHost))
+              IN CASE e.op = "Union"   -> UnionOK(r.ret[1], EA, EB)
+                   [] e.op = "Inter"   -> r.ret[1] = <<>>                  \* C06: disjoint sub-views never intersect
+                   [] e.op = "Diff"    -> DiffOK(r.ret[1], EA, EB)
+                   [] e.op = "CovDiff" -> CovDiffOK(r.ret[1], EA, EB)
     ELSE IF e.a = "Alias" THEN
          \* C14: the references are pairwise distinct and cover exactly the entries of the regions
          /\ ~r.pan
